@@ -809,8 +809,8 @@ func init() {
 			"a second SetCoords on the same object (other sizes; then the geometry's own Coord(i) slices in reverse order, i.e. input aliasing its storage); one wrong-length coordinate injected at a random position; geometries handed out by the WKB/EWKB, WKT and GeoJSON decoders for encodings produced by the independent writers. distinct_nontrivial = number of distinct shape signatures (type, layout, nested length pattern capped at 3) with at least one coordinate, plus the NoLayout accessor cases",
 		Assume: []string{"Go runtime bounds/nil checks turn memory errors into panics, which are observed", "nested-list model and WF monitor in /verif/harness/model"},
 		Classes: []fw.Class{
-			{Name: "shapes", Quick: 60000, Thorough: 3000000, Run: c01Shapes},
-			{Name: "decoders", Quick: 30000, Thorough: 1500000, Run: c01Decoders},
+			{Name: "shapes", Quick: 120000, Thorough: 3000000, Run: c01Shapes},
+			{Name: "decoders", Quick: 60000, Thorough: 1500000, Run: c01Decoders},
 			{Name: "nolayout", Quick: 21, Thorough: 21, Chunk: 21, Run: c01NoLayout, Exhaustive: "7 types x 3 ways of obtaining a NoLayout geometry"},
 		},
 		Require: []string{"wf_ok", "wrong_length_injected", "empty_component_before_nonempty", "nolayout_cases", "setcoords_on_used_geometry", "setcoords_with_aliasing_input", "decoded_wkt", "decoded_geojson", "decoded_ewkb-ndr"},
